@@ -97,12 +97,30 @@ func computeLoops(fn *ssa.Function) map[*ssa.BasicBlock]*loopInfo {
 func isBackEdge(from, to *ssa.BasicBlock) bool { return to.Dominates(from) }
 
 func rpo(fn *ssa.Function) []*ssa.BasicBlock {
+	loops := computeLoops(fn)
+	// innermost loop of a block = the smallest natural loop containing it
+	inner := func(b *ssa.BasicBlock) *loopInfo {
+		var best *loopInfo
+		for _, l := range loops {
+			if l.blocks[b] && (best == nil || len(l.blocks) < len(best.blocks)) {
+				best = l
+			}
+		}
+		return best
+	}
 	seen := map[*ssa.BasicBlock]bool{}
 	var post []*ssa.BasicBlock
 	var dfs func(b *ssa.BasicBlock)
 	dfs = func(b *ssa.BasicBlock) {
 		seen[b] = true
-		for _, s := range b.Succs {
+		// visit loop exits first so that, in reverse postorder, a loop's body
+		// precedes the code after the loop (facts of the continuation do not
+		// clutter the obligations of the body)
+		succs := append([]*ssa.BasicBlock{}, b.Succs...)
+		if l := inner(b); l != nil {
+			sort.SliceStable(succs, func(i, j int) bool { return !l.blocks[succs[i]] && l.blocks[succs[j]] })
+		}
+		for _, s := range succs {
 			if !seen[s] && !isBackEdge(b, s) {
 				dfs(s)
 			}
@@ -1014,6 +1032,11 @@ func (vc *VC) execSlice(fr *Frame, st *State, x *ssa.Slice) {
 			hi = vc.val(fr, st, x.High).S
 		} else {
 			hi = fmt.Sprint(at.Len())
+		}
+		if x.Low == nil && x.High == nil {
+			// whole array (the varargs pattern): statically known length
+			fr.regs[x] = &Val{T: x.Type(), S: fmt.Sprintf("(mkSlice %s %d %d)", base.S, at.Len(), at.Len()), KLen: int(at.Len())}
+			return
 		}
 		vc.safety(fr, st, "slice", fmt.Sprintf("(and (<= 0 %s) (<= %s %s) (<= %s %d))", lo, lo, hi, hi, at.Len()), x.Pos(), "array slice")
 		fr.regs[x] = &Val{T: x.Type(), S: vc.define("sl", "Slice", fmt.Sprintf("(mkSlice (+ %s %s) (- %s %s) (- %d %s))", base.S, lo, hi, lo, at.Len(), lo))}
